@@ -3,6 +3,15 @@ import Driver.Proto
 import Driver.Cmds
 open Driver
 
+/-- all command tables (one per `Driver/Cmds*.lean`) -/
+def allCommands : List (String × P String) := Driver.table
+
+def runCmd : P String := do
+  let c ← tok
+  match allCommands.lookup c with
+  | some p => p
+  | none => throw s!"unknown command {c}"
+
 partial def loop (h : IO.FS.Stream) (out : IO.FS.Stream) : IO Unit := do
   let line ← h.getLine
   if line.isEmpty then return ()
